@@ -85,7 +85,10 @@ fn damage_text(line: &str, d: &Damage) -> String {
         _ => {
             // change the kind of an identifier: add or strip a `$`
             let w = &mut words[i];
-            if w.ends_with('$') {
+            if !w.is_empty() && w.chars().all(|c| c.is_ascii_digit()) {
+                // a numeral (jump target, bound, subscript) gets a fractional part
+                w.push_str(if d.pos % 2 == 0 { ".5" } else { ".0" });
+            } else if w.ends_with('$') {
                 w.pop();
             } else if w.chars().all(|c| c.is_ascii_alphanumeric()) && w.chars().next().map(|c| c.is_ascii_alphabetic()).unwrap_or(false) {
                 w.push('$');
@@ -179,7 +182,7 @@ fn execute(lines: &[String], def_lines: usize, start: Option<u64>, env: u8, seed
     if let End::Error(k, l) = &t.end {
         // an error without a line belongs to the host's own immediate statement, not to the program
         if FORBIDDEN.contains(k) && l.is_some() {
-            return Ok(Some(ErrInfo { kind: *k, line: *l, text: format!("{:?} IN {:?}", k, l), caret: vec![] }));
+            return Ok(Some(ErrInfo { kind: *k, line: *l, text: format!("{:?} IN {:?}", k, l), caret: vec![], located: l.is_some() }));
         }
     }
     Ok(None)
@@ -339,7 +342,7 @@ pub fn property() -> Property {
     ];
     Property {
         id: "C06",
-        rule: "Single numbered lines (1-3 statements from every statement template incl. IF/THEN/ELSE, FOR, NEXT, GOTO, GOSUB, READ, DATA, DIM, DEF, INPUT, calls) and small programs (DEFs first, each function defined at most once) in three modes: well-typed, ill-typed (kind errors injected in operands, subscripts, FOR bounds, assignment targets, arguments) and damaged (a word deleted / duplicated / swapped, the line truncated, a `$` added or stripped, or a word replaced by / preceded with an array cell, a call, a value of the other kind, stray punctuation or a keyword). Direction 1: when the analyzer reports no error, the program is executed by RUN and, after executing its DEF lines, by GOTO to each of its first 24 lines under three variable environments (all unset, all 1/\"a\", mixed) with mixed numeric/text replies, 300 calls each; no execution may end in a syntax error, TYPE MISMATCH or UNDEF'D STATEMENT. Direction 2: every file line the analyzer rejects and whose text contains no IF/THEN/ELSE/GOTO/GOSUB/RETURN/NEXT/END/STOP/INPUT/DEF and no user-function name is entered alone into a fresh interpreter and RUN; it must fail. Each execution is one evaluation. Non-trivial: an accepted program with >= 4 executions, or a rejected straight-line line confirmed; distinct by text.",
+        rule: "Single numbered lines (1-3 statements from every statement template incl. IF/THEN/ELSE, FOR, NEXT, GOTO, GOSUB, READ, DATA, DIM, DEF, INPUT, calls) and small programs (DEFs first, each function defined at most once) in three modes: well-typed, ill-typed (kind errors injected in operands, subscripts, FOR bounds, assignment targets, arguments) and damaged (a word deleted / duplicated / swapped, the line truncated, a `$` added or stripped, a numeral given a fractional part, or a word replaced by / preceded with an array cell, a call, a value of the other kind, stray punctuation or a keyword). Direction 1: when the analyzer reports no error, the program is executed by RUN and, after executing its DEF lines, by GOTO to each of its first 24 lines under three variable environments (all unset, all 1/\"a\", mixed) with mixed numeric/text replies, 300 calls each; no execution may end in a syntax error, TYPE MISMATCH or UNDEF'D STATEMENT. Direction 2: every file line the analyzer rejects and whose text contains no IF/THEN/ELSE/GOTO/GOSUB/RETURN/NEXT/END/STOP/INPUT/DEF and no user-function name is entered alone into a fresh interpreter and RUN; it must fail. Each execution is one evaluation. Non-trivial: an accepted program with >= 4 executions, or a rejected straight-line line confirmed; distinct by text.",
         assumptions: vec![
             "branch forcing is by start line and variable environment, not exhaustive over conditions",
             "starting execution at any line after the DEFs ran is a legitimate execution of the program",
